@@ -161,6 +161,22 @@ theorem single_finisher_idle (hr : Reachable n nthreads stride s) {thr : Nat}
   unfold quiet at hq; unfold LocalOk at hL
   split at hq <;> simp_all
 
+/-- target 2, all parts in one statement -/
+theorem single_finisher (hr : Reachable n nthreads stride s) :
+    (∀ (t u : Nat) (l l' : Local), s.threads[t]? = some l → s.threads[u]? = some l' →
+        isFinisher l = true → isFinisher l' = true → t = u) ∧
+    (∀ l ∈ s.threads, isFinisher l = true →
+        numParticipants s = 0 ∧
+        ((l.pc ≠ .pubStoreCtl ∧ s.sizeCtl = .resizing s.gen 1) ∨
+         (l.pc = .pubStoreCtl ∧ ∃ g, g + 1 = s.gen ∧ s.sizeCtl = .resizing g 1))) ∧
+    (∀ thr, s.sizeCtl = .idle thr → ∀ l ∈ s.threads,
+        l.finishing = false ∧
+        (l.pc = .idle ∨ (∃ thr', l.pc = .casInit (.idle thr')) ∨
+         (∃ g c, l.pc = .casJoin (.resizing g c) ∧ c ≠ 1 ∧ s.sizeCtl ≠ .resizing g c))) :=
+  ⟨fun _ _ _ _ ht hu hl hl' => single_finisher_unique hr ht hu hl hl',
+   fun _ hl hf => single_finisher_word hr hl hf,
+   fun _ h _ hl => single_finisher_idle hr h hl⟩
+
 /-! ## 3. `moved_once` -/
 
 theorem moved_once (hr : Reachable n nthreads stride s) :
@@ -234,7 +250,7 @@ theorem single_publication (hr : Reachable n nthreads stride s) :
     simp only [List.getD, List.getElem?_replicate]
     split <;> simp
   · intro g hg; rw [h1]
-    simp [List.getD, List.getElem?_replicate, hg]
+    simp [List.getD, hg]
 
 /-! ## 6. `no_overlap` -/
 
@@ -279,6 +295,34 @@ theorem resize_starts_from_idle (hr : Reachable n nthreads stride s) {t c : Nat}
       split at hs
       · simp_all
       · injection hs with hs; subst hs; simp_all [setT]
+
+/-- a resizing word is only ever replaced by a resizing word with the *same* stamp or by an idle
+word: resizes of different generations never overlap -/
+theorem stamp_stable (hr : Reachable n nthreads stride s) {t ch : Nat} {s' : State}
+    (hs : step s t ch = some s') {g c g' c' : Nat} (h : s.sizeCtl = .resizing g c)
+    (h' : s'.sizeCtl = .resizing g' c') : g' = g := by
+  cases hl : s.threads[t]? with
+  | none => simp [step, hl] at hs
+  | some l =>
+    have hL := hr.inv.locals t l hl
+    cases hpc : l.pc <;> simp only [LocalOk, hpc] at hL <;> simp only [step, hl, hpc] at hs
+    case casInit sc =>
+      obtain ⟨_, thr, rfl⟩ := hL
+      split at hs
+      · simp_all
+      · injection hs with hs; subst hs; simp_all [setT]
+    case casJoin sc =>
+      split at hs
+      · split at hs <;> (injection hs with hs; subst hs; simp_all [setT])
+      · injection hs with hs; subst hs; simp_all [setT]
+    case leaveCas sc =>
+      split at hs
+      · split at hs
+        · split at hs <;> (injection hs with hs; subst hs; simp_all [setT])
+        · injection hs with hs; subst hs; simp_all [setT]
+      · injection hs with hs; subst hs; simp_all [setT]
+    all_goals
+      (repeat' split at hs) <;> (injection hs with hs; subst hs; simp_all [setT])
 
 /-! ## 7. `quiescent_after` -/
 
